@@ -202,3 +202,5 @@ Example c12_conc_sink_faults_witness :
   ([0; 1; 2; 1; 0; 0], [OOk 2; OOk 9; OOk 2; OErr 7%N; OOk 2; OOk 0],
    [OOk 2; OOk 2; OOk 0], [OOk 9; OErr 7%N], [OOk 2], [0; 2; 4], []).
 Proof. vm_compute. reflexivity. Qed.
+
+(* Note after the second read-only review of these pins (selftest/audit/REVIEW-2-2026-10-02.md): c12_once_faults does not use its hypothesis is_merge ps l: it is the writer ledger for ANY call list, instantiated at an interleaving; c12_conc_sink / _spec hold by unfolding (they pin what the executed root computes). *)
